@@ -20,8 +20,9 @@ type c05Flat struct {
 
 // c05FlatPath is what one path of OSM.MarshalJSON hands to the codec.
 type c05FlatPath struct {
-	path    *c03Path
-	carried map[*types.Var]string // OSM field -> how it is carried (top-level key / elements)
+	path     *c03Path
+	carried  map[*types.Var]string // OSM field -> how it is carried (top-level key / elements)
+	nilField *types.Var            // the pointer field that is nil in this path's scenario (nil: every field set)
 }
 
 // c05Flattening is the observed behaviour of OSM.MarshalJSON with every field set.
@@ -54,11 +55,48 @@ func c05FindFlattening(r *core.R) *c05Flattening {
 	}
 	cx := c05NewCodec(r.P)
 	fl := &c05Flattening{cx: cx, ma: ma, recv: c03Receiver(ma), top: map[*types.Var]*types.Var{}, topVal: map[*types.Var]*c03V{}, pos: ma.Decl.Pos()}
-	x, paths := cx.run(ma, c05Scen{Tag: "all set"})
+	// scenarios: every field set; and, for each pointer-typed field, that field nil (the list is then built without
+	// it, which shifts every index-based treatment of the list)
+	nilFields := []*types.Var{nil}
+	if st, ok := osmNT.Underlying().(*types.Struct); ok {
+		for i := 0; i < st.NumFields(); i++ {
+			if f := st.Field(i); f.Exported() && c03IsPointer(f.Type()) {
+				nilFields = append(nilFields, f)
+			}
+		}
+	}
+	seen := map[string]bool{}
+	for _, nilField := range nilFields {
+		nilField := nilField
+		sc := c05Scen{Tag: "all set"}
+		if nilField != nil {
+			sc = c05Scen{Tag: nilField.Name() + " nil", Recv: func(path []*types.Var) tri {
+				if len(path) == 1 && path[0] == nilField {
+					return triT
+				}
+				return triF
+			}}
+		}
+		fl.observe(r, sc, nilField, seen)
+	}
+	if fl.shimT == nil {
+		r.Anchor("the struct OSM.MarshalJSON hands to the JSON codec")
+		return nil
+	}
+	if fl.elemKey == nil {
+		r.Anchor("field with JSON key `elements` in the struct OSM.MarshalJSON marshals")
+		return nil
+	}
+	return fl
+}
+
+// observe runs OSM.MarshalJSON under one scenario and records what each path hands to the codec.
+func (fl *c05Flattening) observe(r *core.R, sc c05Scen, nilField *types.Var, seen map[string]bool) {
+	cx, ma := fl.cx, fl.ma
+	x, paths := cx.run(ma, sc)
 	if x.Aborted != "" {
 		fl.unknown = x.Aborted
 	}
-	seen := map[string]bool{}
 	for _, pa := range paths {
 		if pa.End != "return" {
 			fl.unknown = "a path of OSM.MarshalJSON ends with " + pa.End + " " + pa.Why
@@ -87,7 +125,7 @@ func c05FindFlattening(r *core.R) *c05Flattening {
 		if fl.elemKey == nil {
 			continue
 		}
-		fp := &c05FlatPath{path: pa, carried: map[*types.Var]string{}}
+		fp := &c05FlatPath{path: pa, carried: map[*types.Var]string{}, nilField: nilField}
 		for _, jf := range c03JSONFields(shim.T) {
 			v := x.field(pa.St, shim, jf.Var, ma.Decl, nil)
 			if jf.Var == fl.elemKey.Var {
@@ -102,15 +140,6 @@ func c05FindFlattening(r *core.R) *c05Flattening {
 		}
 		fl.paths = append(fl.paths, fp)
 	}
-	if fl.shimT == nil {
-		r.Anchor("the struct OSM.MarshalJSON hands to the JSON codec")
-		return nil
-	}
-	if fl.elemKey == nil {
-		r.Anchor("field with JSON key `elements` in the struct OSM.MarshalJSON marshals")
-		return nil
-	}
-	return fl
 }
 
 // elements classifies the members of the list marshalled under `elements` on one path.
@@ -237,9 +266,16 @@ func c05J1(r *core.R) {
 			how, bad := "", false
 			for _, fp := range fl.paths {
 				h, ok := fp.carried[f]
+				if fp.nilField == f {
+					continue // nil in this scenario: nothing to carry
+				}
 				if !ok && !bad {
 					bad = true
-					r.Bad(c, f.Pos(), "with every field set, OSM.%s (%s) is written neither under a top-level key nor into the elements array by OSM.MarshalJSON (%s): it is silently lost over a JSON round trip", f.Name(), c03Short(f.Type()), c05ForkText(r, fp.path))
+					scen := "with every field set"
+					if fp.nilField != nil {
+						scen = "with OSM." + fp.nilField.Name() + " nil and every other field set"
+					}
+					r.Bad(c, f.Pos(), "%s, OSM.%s (%s) is written neither under a top-level key nor into the elements array by OSM.MarshalJSON (%s): it is silently lost over a JSON round trip", scen, f.Name(), c03Short(f.Type()), c05ForkText(r, fp.path))
 				}
 				how = h
 			}
